@@ -75,6 +75,29 @@ CHECKS = {
   note="Message wording is outside the claim (messages built from symbolic bytes are opaque to the engine); texts mixing newline "
        "conventions are outside (1).",
   ref="DESIGN.md §4 C16"),
+
+ "C17": dict(
+  text="Bounded symbolic model checking of the real enum-rule scanner and the jschema enum constraint: (a) for ALL rule texts of up to N "
+       "bytes (4 quick, 6 thorough) without annotation/comment introducers, and for all two-entry templates [V1, V2] (V: integer, float, "
+       "one/two-byte strings over letters, digits, dot, space, slash, strings with an escape, true, null): accepted iff a bracketed list "
+       "of pairwise distinct scalars (same = equal decoded strings or identical non-string literals; \\/ vs / crossed), and Values() "
+       "lists the scalars in order with their kind - under both modelled map orders; (b) `X // {enum: @r}` with the rule file in three "
+       "layouts (plain, inline notes, multi-line note) gets the same verdict and the same Example() as `X // {enum: [V1, V2]}` for all "
+       "X, V1, V2 from the holes.",
+  note="Duplicate candidates involving \\u escapes or non-ASCII bytes are outside the reference (no claim); rule texts longer than the "
+       "bounds and other annotation layouts are outside.",
+  ref="DESIGN.md §4 C17"),
+ "C18": dict(
+  text="Bounded symbolic model checking of the real regex schema code, claimed in part: for ALL texts of up to N bytes (4 quick, 6 "
+       "thorough) with regexp.Compile as an uninterpreted validity predicate: a text that is not /-delimited (first byte '/', a later "
+       "'/' preceded by an even number of backslashes) is rejected with a diagnostic, a delimited text is rejected only with the "
+       "invalid-pattern code, and when accepted Len() is the delimited length and Pattern()/AST carry exactly the bytes between the "
+       "delimiters. Plus 22 concrete patterns x 3 trailers with the real regexp engine as host code: accepted iff the pattern "
+       "compiles, Example() is matched by the pattern; the rsoac struct keeps exactly the pattern; a regex schema registered as a user "
+       "type makes the referring schema accept exactly the matching strings (4 patterns x 7 candidates).",
+  note="'Example() is matched by the pattern' for arbitrary patterns is outside the claim (reggen and regexp are host code, concrete "
+       "inputs only); paths decided by the uninterpreted predicate are not replayed natively (counted in the evidence).",
+  ref="DESIGN.md §4 C18"),
 }
 
 NOT_APPLICABLE = {
